@@ -47,7 +47,7 @@ def main():
                           'add(x, w), batch_add([x], w) and batch_add of whole lists with repeated and colliding items) are driven by seeded streams; every update is recorded with the real '
                           'query() of every seen item and of an unseen one and the row sums, and validated by TraceCMS.tla against the ghosts truth/total.  non-trivial = distinct streams in which two items '
                           'collide in some row or a weight 0 occurs')
-    V.assumptions += ['counts stay far below the int32 range of the sketch matrix']
+    V.assumptions += ['counts stay far below the int32 range of the sketch matrix', 'the inductive (unbounded-stream) argument is for the model CMS.tla / CMSInductive.tla; the real class is bound to it by the replayed and validated streams']
     CINV = ['NeverUnder', 'NeverOverTotal', 'RowSumsAreTotal']
     Vt = E.Verdict(PID, tier, seed)
     r, _ = run_spec(Vt, 'deviation', consts(2, 2, 2, '{1}', 3, dev=True), 'NextCMS', CINV)
@@ -65,6 +65,28 @@ def main():
         res, _ = run_spec(V, f'CMS/D{D}-W{W}-{items}items', consts(D, W, items, '{0,1,2}', ml), 'NextCMS', CINV, coverage=(D, W) == (2, 2))
         if res.coverage and res.coverage.get('Update', (0, 0))[0] == 0:
             raise E.MachineryError('Update never taken')
+
+    # unbounded streams: the three clauses follow from an inductive invariant (Apalache, spec/apalache/CMSInductive.tla)
+    apa = os.path.join(E.SPEC, 'apalache', 'CMSInductive.tla')
+    steps = [('base', ['--init=Init', '--inv=IndInv', '--length=0'], 'ok'),
+             ('step', ['--init=IndInit', '--inv=IndInv', '--length=1'], 'ok'),
+             ('consequences', ['--init=IndInit', '--inv=Consequences', '--length=0'], 'ok'),
+             ('non-vacuity', ['--init=IndInit', '--inv=NonVacuous', '--length=0'], 'violation'),
+             ('deviation-step', ['--init=IndInit', '--next=NextDev', '--inv=IndInv', '--length=1'], 'violation')]
+    if tier == 'quick':
+        steps = [s_ for s_ in steps if s_[0] in ('step', 'consequences', 'deviation-step')]
+    import concurrent.futures as cf
+    with cf.ThreadPoolExecutor(max_workers=len(steps)) as ex:
+        outcomes = list(ex.map(lambda s_: E.run_apalache(apa, s_[1]), steps))
+    for (nm, args, want), got_ in zip(steps, outcomes):
+        if nm in ('non-vacuity', 'deviation-step'):
+            if got_ != want:
+                raise E.MachineryError(f'apalache control {nm}: expected a counterexample, got {got_}')
+        elif got_ != want:
+            V.violation(f'inductive:{nm}', f'Apalache found a counterexample to the inductive argument ({nm}) for the count-min machine', {'args': args})
+    V.notes['inductive_invariant'] = ('Apalache: IndInv (every cell = sum of the true weights of the items hashed to it; total = sum of weights) holds initially, is preserved by Update and '
+                                      'Batch2 for arbitrary integer cell values and every hash function (D=2, W=3, 3 items), and implies NeverUnder, NeverOverTotal, RowSumsAreTotal; '
+                                      'controls: the hypothesis is satisfiable with non-trivial values, and the BatchCellOnce deviation breaks the inductive step.  steps run: ' + ', '.join(s_[0] for s_ in steps))
 
     # bounded counter: model + replay
     for bound in (1, 2, 3):
